@@ -39,6 +39,8 @@ class Device(object):
     self.violations = []
     self.on_open = None
     self.consumed_wrte = collections.Counter()
+    self.ack_delay = 0.0               # virtual seconds the device takes to acknowledge a host WRTE
+    self.not_before = {}               # id(chunk tuple) -> virtual time at which it becomes readable
 
   def enqueue(self, cmd, a0, a1, data=''):
     b = c13.s2b(data)
@@ -49,11 +51,22 @@ class Device(object):
   def write(self, data, timeout_ms=None):
     runtime.yield_point('dev.write')
     if self._hdr is None:
-      self._hdr = bytes(data)
+      raw = c13.s2b(data)
+      if len(raw) != 24 or struct.unpack('<6I', raw)[0] ^ 0xFFFFFFFF != struct.unpack('<6I', raw)[5]:
+        self.violations.append(('torn-frame', 'the device expected a 24-byte header and got %r: header and payload of two '
+                                'host threads interleaved on the wire' % (raw[:30],)))
+        return
+      self._hdr = raw
       return
     w, a0, a1, n, ck, mg = struct.unpack('<6I', self._hdr)
     self._hdr = None
     cmd = c13.WORD_TO_CMD.get(w, '?')
+    raw = c13.s2b(data)
+    if len(raw) != n or (sum(raw) & 0xFFFFFFFF) != ck:
+      self.violations.append(('torn-frame', 'payload %r does not match its header (%s, %d bytes, checksum %d): frames of two '
+                              'host threads interleaved on the wire' % (raw[:30], cmd, n, ck)))
+      return
+    data = c13.b2s(raw)
     self.rx.append((cmd, a0, a1, data))
     if cmd == 'OPEN':
       remote = 100 + a0
@@ -65,13 +78,17 @@ class Device(object):
       if self.pending_ack[a0]:
         self.violations.append(('two-unacked-writes', 'host sent another WRTE on stream %d before consuming the OKAY of the previous one' % a0))
       self.pending_ack[a0] += 1
+      k = len(self.out)
       self.enqueue('OKAY', a1, a0)
+      if self.ack_delay:
+        for item in list(self.out)[k:]:
+          self.not_before[id(item)] = time.monotonic() + self.ack_delay
 
   def read(self, n, timeout_ms=None):
     runtime.yield_point('dev.read')
     waited = 0.0
     limit = (timeout_ms / 1000.0) if timeout_ms is not None else 1.0
-    while not self.out:
+    while not self.out or self.not_before.get(id(self.out[0]), 0) > time.monotonic():
       if waited >= limit:
         raise self.ue.UsbReadFailedError(self.libusb1.USBError(self.libusb1.LIBUSB_ERROR_TIMEOUT))
       time.sleep(0.005)
@@ -150,15 +167,22 @@ def scenario(scripts, merge, writer):
       res['read'][s] = ''.join(got)
       res['end'][s] = end
 
-    writers = [writer] if isinstance(writer, str) else list(writer or [])
+    wopts = writer if isinstance(writer, dict) else {}
+    wdata = wopts['data'] if wopts else writer
+    writers = [wdata] if isinstance(wdata, str) else list(wdata or [])
     wres = {}
+    wtime = {}
+    dev.ack_delay = wopts.get('ack_delay', 0.0)
+    wtimeout = wopts.get('timeout_ms', 300)
 
     def do_write(k=0):
+      t0 = time.monotonic()
       try:
-        streams[0].write(writers[k], timeout_ms=300)
+        streams[0].write(writers[k], timeout_ms=wtimeout)
         wres[k] = 'ok'
       except Exception as e:  # pylint: disable=broad-except
         wres[k] = 'error:%s:%s' % (type(e).__name__, str(e)[:80])
+      wtime[k] = time.monotonic() - t0
 
     ths = [threading.Thread(target=reader, args=(s,), name='r%d' % s) for s in range(len(scripts))]
     for k in range(len(writers)):
@@ -174,6 +198,8 @@ def scenario(scripts, merge, writer):
       bad = [r for k, r in wres.items() if r != 'ok' and k not in refused]
       res['write'] = 'ok' if not bad and len(wres) == len(writers) else (bad[0] if bad else 'missing')
       res['written'] = [writers[k] for k in sorted(wres) if wres[k] == 'ok']
+      res['write_elapsed'] = max(wtime.values()) if wtime else 0.0
+      res['write_timeout'] = wtimeout / 1000.0
     res['rx'] = list(dev.rx)
     res['dev_violations'] = list(dev.violations)
     res['left'] = len(dev.out)
@@ -207,9 +233,13 @@ def execute(cfg, choices):
 
 def check(cfg):
   scripts, merge, writer = cfg
+  wopts = writer if isinstance(writer, dict) else {}
+  wspec = writer
+  if wopts:
+    writer = wopts['data']
 
   def chk(ex):
-    rep = {'part': 'streams', 'cfg': [scripts, merge, writer], 'choices': ex.choices}
+    rep = {'part': 'streams', 'cfg': [scripts, merge, wspec], 'choices': ex.choices}
     tag = '%dstreams%s' % (len(scripts), ('+%dwriters' % len(writer) if isinstance(writer, (list, tuple)) else '+writer') if writer else '')
     out = []
     v = ex.result['value']
@@ -250,7 +280,13 @@ def check(cfg):
       out.append(('ack-ids:%s' % tag, 'host OKAY with foreign ids %r' % (bad_ok,), rep))
     for kind, what in v['dev_violations']:
       out.append(('%s:%s' % (kind, tag), what, rep))
-    if writer:
+    if writer and wopts.get('ack_delay'):
+      # a slow device: "every blocked write returns or raises by its timeout" -- the whole write(), not each chunk
+      late = v.get('write_elapsed', 0.0) - v.get('write_timeout', 0.3)
+      if late > 0.06 + ex.result.get('early_jump', 0.0):
+        out.append(('write-overran-timeout:%s' % tag, 'write(%r, timeout %.0f ms) against a device taking %.0f ms per ack ended %r '
+                    'after %.0f ms' % (writer, 1000 * v['write_timeout'], 1000 * wopts['ack_delay'], v['write'], 1000 * v['write_elapsed']), rep))
+    elif writer:
       timed_out = isinstance(v['write'], str) and 'Timeout' in v['write']
       if v['write'] != 'ok' and (strict or not timed_out):
         out.append(('write-failed:%s' % tag, 'stream write ended with %r (clock deviations: %d)'
@@ -281,6 +317,8 @@ def configs(tier):
   # two threads writing to the same stream (at most one unacknowledged WRTE at any time), without and with a reader
   none_s = [[]]
   out.append((none_s, [], ['01', '23'], 1 if tier == 'quick' else 2))
+  # a device that needs 200 ms per acknowledgement, three chunks, 300 ms for the whole write
+  out.append((none_s, [], {'data': '0123456789ab', 'ack_delay': 0.2, 'timeout_ms': 300}, 0 if tier == 'quick' else 1))
   if tier == 'thorough':
     out.append(([['a']], merges([['a']])[0], ['01', '23'], 1))
     out.append((one_b, merges(one_b)[0], '0123456789', 1))
